@@ -1880,6 +1880,11 @@ func clientWiring(c *Ctx, id string) {
 		{cl, "Client.Close", inv("Client", "Close"), nil},
 		{cl, "VBucketDiscovery.Close", inv("VBucketDiscovery", "Close"), nil},
 		{commit, "Stream.Save", inv("Stream", "Save"), nil},
+		{newDcp, "Client.Connect", inv("Client", "Connect"), nil},
+		{newDcp, "HTTPClient.Connect", inv("HTTPClient", "Connect"), nil},
+		{newDcp, "HTTPClient.GetVersion", inv("HTTPClient", "GetVersion"), nil},
+		{newDcp, "HTTPClient.GetBucketInfo", inv("HTTPClient", "GetBucketInfo"), nil},
+		{newDcp, "Client.DcpConnect", inv("Client", "DcpConnect"), nil},
 	}
 	for _, sp := range steps {
 		c.see(sp.fn)
@@ -1970,6 +1975,44 @@ func clientWiring(c *Ctx, id string) {
 			dropped = append(dropped, calleeName(call.Common())+" @"+w.pos(in.Pos()))
 		}
 	})
+	for _, fn := range w.ModFuncs {
+		if fn.Pkg != newDcp.Pkg || (fn.Name() != "newDcpWithPath" && fn.Name() != "newDcpConfig") {
+			continue
+		}
+		c.see(fn)
+		allInstrs(fn, func(in ssa.Instruction) {
+			call, ok := in.(*ssa.Call)
+			if !ok || !hasErrorResult(call.Common()) {
+				return
+			}
+			ers := errResults(call)
+			if len(ers) == 0 || !reported(errorSinks(ers[0])) {
+				dropped = append(dropped, calleeName(call.Common())+" @"+w.pos(in.Pos()))
+			}
+		})
+	}
+	// the configured backend is installed exactly when none was supplied
+	if f := w.Field("", "dcp", "metadata"); f != nil {
+		nStores, bad := 0, ""
+		allInstrs(start, func(in ssa.Instruction) {
+			st, ok := in.(*ssa.Store)
+			if !ok || fieldOfAddr(st.Addr) != f {
+				return
+			}
+			if strings.Contains(w.Origin(st.Val), "recv.metadata") {
+				return // a wrapper around the backend in place (the read-only decorator), not another backend
+			}
+			nStores++
+			if !guardedBy(in.Block(), true, func(v ssa.Value) bool {
+				eq, isCmp := isNilCompare(v, func(x ssa.Value) bool { return strings.HasSuffix(w.Origin(x), "recv.metadata") })
+				return isCmp && eq
+			}) {
+				bad = w.pos(in.Pos())
+			}
+		})
+		c.Check(nStores > 0 && bad == "", id, "wiring:metadata-default", start.Pos(), fmt.Sprintf("Start installs a backend (%d stores) only under metadata == nil", nStores), "Start installs a checkpoint backend although one may have been supplied (or none at all) "+bad+": SetMetadata's store is replaced, or the client runs without a backend")
+	}
+	consumerChain(c, id, start, newDcp)
 	c.Check(len(dropped) == 0, id, "wiring:newDcp-errors", newDcp.Pos(), "every fallible step of newDcp returns its error", "newDcp drops the error of "+strings.Join(dropped, ", ")+": the client starts on a connection, version or bucket description it does not have")
 }
 
@@ -1986,8 +2029,9 @@ func liveGuards(b *ssa.BasicBlock) []Guard {
 			}
 			dies := false
 			for _, x := range other.Instrs {
-				if _, isP := x.(*ssa.Panic); isP {
-					dies = true
+				switch x.(type) {
+				case *ssa.Panic, *ssa.Return:
+					dies = true // (if err != nil { return …, err } ends the function just as well)
 				}
 			}
 			if dies {
@@ -2298,4 +2342,125 @@ func collectionIDsExact(c *Ctx, id string) {
 			return ""
 		}, "table = {idOf(name) → name | configured names} with collection support, {} without; (nil, err) when a resolution fails")
 	}
+}
+
+// consumerChain: the user's listener/consumer reaches the stream unwrapped and unreplaced: NewDcp wraps the listener in
+// the simple consumer, which calls it exactly once per event with the event's own context; every constructor variant
+// hands the consumer on; newDcp stores it; Start gives NewStream that very field, and the collection table resolved
+// from the configured scope and names.
+func consumerChain(c *Ctx, id string, start, newDcp *ssa.Function) {
+	w := c.W
+	var simple, ce *ssa.Function
+	var ctors []*ssa.Function
+	for _, fn := range w.ModFuncs {
+		if fn.Pkg != newDcp.Pkg {
+			continue
+		}
+		switch {
+		case fn.Name() == "NewSimpleConsumer":
+			simple = fn
+		case fname(fn) == "(*dcp.simplifiedConsumer).ConsumeEvent":
+			ce = fn
+		case fn != newDcp && fn.Parent() == nil && (len(callsIn(fn, newDcp)) > 0 || fn.Name() == "NewDcp" || fn.Name() == "NewExtendedDcp"):
+			ctors = append(ctors, fn)
+		}
+	}
+	c.need(simple != nil && ce != nil && len(ctors) >= 3, id, "NewSimpleConsumer / simplifiedConsumer.ConsumeEvent / the constructors")
+	// the simple consumer calls the listener once with its own argument
+	c.see(ce)
+	n, okArg := 0, true
+	allInstrs(ce, func(in ssa.Instruction) {
+		if cc := callOf(in); cc != nil && strings.HasSuffix(w.Origin(cc.Value), "recv.listener") {
+			n++
+			_, plain := in.(*ssa.Call)
+			if !plain || len(cc.Args) != 1 || len(ce.Params) != 2 || w.Origin(cc.Args[0]) != w.Origin(ce.Params[1]) || len(guardsOf(in.Block())) != 0 {
+				okArg = false
+			}
+		}
+	})
+	c.Check(n == 1 && okArg, id, "consumer:listener-called", ce.Pos(), "the simple consumer calls the listener once, unconditionally, with the event it was given", "the simple consumer does not call the user's listener exactly once with the event it was given: events are lost or duplicated between the stream and the application")
+	// NewSimpleConsumer keeps the listener
+	c.see(simple)
+	kept := false
+	allInstrs(simple, func(in ssa.Instruction) {
+		if st, ok := in.(*ssa.Store); ok && len(simple.Params) == 1 && st.Val == ssa.Value(simple.Params[0]) {
+			if f := fieldOfAddr(st.Addr); f != nil && f.Name() == "listener" {
+				kept = true
+			}
+		}
+	})
+	c.Check(kept, id, "consumer:listener-kept", simple.Pos(), "NewSimpleConsumer keeps the listener it was given", "NewSimpleConsumer does not keep the listener it was given")
+	// every constructor hands the consumer (or the wrapped listener) on
+	for _, fn := range ctors {
+		c.see(fn)
+		bad := ""
+		nCalls := 0
+		allInstrs(fn, func(in ssa.Instruction) {
+			cc := callOf(in)
+			if cc == nil || cc.StaticCallee() == nil || cc.StaticCallee().Pkg != newDcp.Pkg {
+				return
+			}
+			callee := cc.StaticCallee()
+			for i, p := range callee.Params {
+				if named, ok := p.Type().(*types.Named); ok && named.Obj().Name() == "Consumer" && i < len(cc.Args) {
+					nCalls++
+					o := w.Origin(cc.Args[i])
+					okO := false
+					for _, fp := range fn.Params {
+						if o == "param("+fp.Name()+")" || o == "call("+fname(simple)+")(param("+fp.Name()+"))" {
+							okO = true
+						}
+					}
+					if !okO {
+						bad = o + " @" + w.pos(in.Pos())
+					}
+				}
+			}
+		})
+		c.Check(nCalls > 0 && bad == "", id, "consumer:handed-on@"+fname(fn), fn.Pos(), fmt.Sprintf("%d constructor calls receive the caller's consumer", nCalls), "the constructor hands on "+bad+" instead of the consumer (or wrapped listener) it was given")
+	}
+	// newDcp stores it; Start passes that field and the resolved collection table
+	stored := false
+	if f := w.Field("", "dcp", "consumer"); f != nil {
+		allInstrs(newDcp, func(in ssa.Instruction) {
+			if st, ok := in.(*ssa.Store); ok && fieldOfAddr(st.Addr) == f && len(newDcp.Params) == 2 && st.Val == ssa.Value(newDcp.Params[1]) {
+				stored = true
+			}
+		})
+	}
+	c.Check(stored, id, "consumer:stored", newDcp.Pos(), "newDcp stores the consumer it was given", "newDcp does not store the consumer it was given")
+	var ns *ssa.CallCommon
+	var nsPos ssa.Instruction
+	allInstrs(start, func(in ssa.Instruction) {
+		if cc := callOf(in); cc != nil && cc.StaticCallee() != nil && cc.StaticCallee().Name() == "NewStream" {
+			ns, nsPos = cc, in
+		}
+	})
+	if ns == nil {
+		c.Fail(id, "consumer:to-stream", start.Pos(), "Start does not build the stream with NewStream")
+		return
+	}
+	bad := ""
+	seen := 0
+	for i, p := range ns.StaticCallee().Params {
+		if i >= len(ns.Args) {
+			break
+		}
+		o := w.Origin(ns.Args[i])
+		switch t := p.Type().(type) {
+		case *types.Named:
+			if t.Obj().Name() == "Consumer" {
+				seen++
+				if o != "recv.consumer" {
+					bad += " consumer←" + o
+				}
+			}
+		case *types.Map:
+			seen++
+			if !strings.HasPrefix(o, "call(recv.client.GetCollectionIDs)(recv.config.ScopeName, recv.config.CollectionNames)#0") {
+				bad += " collection table←" + o
+			}
+		}
+	}
+	c.Check(seen == 2 && bad == "", id, "consumer:to-stream", nsPos.Pos(), "NewStream receives the stored consumer and the table resolved from the configured scope and collection names", "NewStream receives"+bad+" (expected the stored consumer and GetCollectionIDs(config.ScopeName, config.CollectionNames))")
 }
